@@ -38,6 +38,14 @@ theorem stmt_cur (d : Drv) (h : d.cur.isSome = true) :
     · simp [hc]
     · split <;> simp
 
+theorem next_cur (d : Drv) (h : d.cur.isSome = true) :
+    d.next.2.cur.isSome = true ∧ d.next.2.committed = d.committed := by
+  unfold Drv.next Drv.prim
+  simp only []
+  split
+  · cases hc : d.cur <;> simp_all
+  · exact ⟨h, rfl⟩
+
 theorem scan_cur (d : Drv) (h : d.cur.isSome = true) :
     d.scan.2.cur.isSome = true ∧ d.scan.2.committed = d.committed := by
   unfold Drv.scan Drv.prim
@@ -59,7 +67,7 @@ theorem commit_cur (d : Drv) : d.commit.2.cur = none ∨ d.cur = none := by
 
 theorem rollback_cur (d : Drv) : d.rollback.cur = none ∧ d.rollback.committed = d.committed := by
   unfold Drv.rollback
-  cases hc : d.cur <;> simp [hc]
+  cases hc : d.cur <;> simp [hc, Drv.prim]
 
 /-! ### the wrapper -/
 
@@ -157,10 +165,17 @@ theorem never_panics (p : Pg) (op : PgOp) (s : String) : (p.step op).1 ≠ .pani
           cases d2.view k with
           | none => simpa using h1.1
           | some v =>
-            have h2 := scan_cur d2 h1.1
-            rcases hsc : d2.scan with ⟨ok3, d3⟩
-            rw [hsc] at h2
-            cases ok3 <;> simpa using h2.1
+            have hn := next_cur d2 h1.1
+            rcases hnx : d2.next with ⟨okn, dn⟩
+            rw [hnx] at hn
+            cases okn with
+            | false => simpa using hn.1
+            | true =>
+              simp only [Bool.not_true, Bool.false_eq_true, if_false]
+              have h2 := scan_cur dn hn.1
+              rcases hsc : dn.scan with ⟨ok3, d3⟩
+              rw [hsc] at h2
+              cases ok3 <;> simpa using h2.1
       have hvd : ∀ (q : Pg), q.drv.cur.isSome = true →
           (match q.query dk with
             | (none, q) => (PgRes.err "query", q.abort)
@@ -237,7 +252,7 @@ theorem put_single (p : Pg) (k v : Bytes) (hm : p.multi = false) (hc : p.drv.cur
   · simp [h0, hc, hm]
   · unfold Drv.stmt Drv.prim
     by_cases h1 : p.drv.calls + 1 ∈ p.drv.faults
-    · simp [h0, h1, hm, Pg.abort, Drv.rollback]; omega
+    · simp [h0, h1, hm, Pg.abort, Drv.rollback, Drv.prim]; omega
     · unfold Pg.stopSingle Drv.commit Drv.prim
       by_cases h2 : p.drv.calls + 2 ∈ p.drv.faults
       · simp [h0, h1, h2, hm]; omega
@@ -417,7 +432,8 @@ theorem query_in_multi (q : Pg) (id : Nat) (pend : Store)
   have hqm : q.drv.calls ∉ q.drv.faults := fun h => by have := hnf _ h; omega
   have hqm1 : q.drv.calls + 1 ∉ q.drv.faults := fun h => by have := hnf _ h; omega
   have nf1 : ∀ i ∈ q.drv.faults, i < q.drv.calls + 1 := fun i hi => by have := hnf i hi; omega
-  have nf2 : ∀ i ∈ q.drv.faults, i < q.drv.calls + 1 + 1 := fun i hi => by have := hnf i hi; omega
+  have hqm2 : q.drv.calls + 1 + 1 ∉ q.drv.faults := fun h => by have := hnf _ h; omega
+  have nf2 : ∀ i ∈ q.drv.faults, i < q.drv.calls + 1 + 1 + 1 := fun i hi => by have := hnf i hi; omega
   cases hv : q.drv.view k with
   | none =>
     have hv' := hv
@@ -427,7 +443,7 @@ theorem query_in_multi (q : Pg) (id : Nat) (pend : Store)
   | some v =>
     have hv' := hv
     simp only [Drv.view, hcur] at hv'
-    simp [Pg.query, Drv.stmt, Drv.prim, Drv.scan, Drv.view, hcur, hqm, hqm1, hv', NoFaults]
+    simp [Pg.query, Drv.stmt, Drv.prim, Drv.next, Drv.scan, Drv.view, hcur, hqm, hqm1, hqm2, hv', NoFaults]
     exact nf2
 
 /-- **A read inside an explicit transaction does not end it** (the clause a second-wave seeded change broke: a translated
